@@ -220,16 +220,36 @@ def gen_rules(run, mode, n=None):
     return path
 
 
-def tv_laws(run, law, records_path, summary, classify=None):
-    """I->S: TLC evaluates the law on every recorded call; rejected records are mapped back to their inputs"""
-    res = run_tlc("TV_Laws_" + law, "tv/TV_Laws.tla", "tv/TV_Laws_%s.cfg" % law, env=dict(run.known_env(), TRACE=records_path), timeout=6000, heap="12g")
-    run.add_tlc("TV_Laws_" + law, res, "I->S: %s law of spec/tv/TV_Laws.tla evaluated by TLC on every recorded call" % law)
+def tv_laws(run, law, records_path, summary, classify=None, tag=""):
+    """I->S: TLC evaluates the law on every recorded call; rejected records are mapped back to their inputs.
+    Large recordings are validated in parts (TLC holds the deserialised records of one part in memory)."""
     nrec = summary["extra"].get("records", 0)
-    rejected = sorted(json.loads(x)["rejected_record"] for x in res.printed if isinstance(x, str) and "rejected_record" in x)
-    run.cov["jobs"]["TV_Laws_" + law].update({"records": nrec, "rejected": len(rejected)})
+    CHUNK = 80000
+    parts = [records_path]
+    if nrec > CHUNK:
+        parts, fh, n = [], None, 0
+        for line in open(records_path):
+            if n % CHUNK == 0:
+                if fh: fh.close()
+                parts.append("%s.part%d" % (records_path, len(parts)))
+                fh = open(parts[-1], "w")
+            fh.write(line); n += 1
+        if fh: fh.close()
+    rejected, distinct = [], 0
+    for k, part in enumerate(parts):
+        name = "TV_Laws_%s%s%s" % (law, tag, "" if len(parts) == 1 else "_part%d" % k)
+        res = run_tlc(name, "tv/TV_Laws.tla", "tv/TV_Laws_%s.cfg" % law, env=dict(run.known_env(), TRACE=part), timeout=6000, heap="12g")
+        run.add_tlc(name, res, "I->S: %s law of spec/tv/TV_Laws.tla evaluated by TLC on every recorded call" % law)
+        rej = sorted(json.loads(x)["rejected_record"] for x in res.printed if isinstance(x, str) and "rejected_record" in x)
+        run.cov["jobs"][name].update({"rejected": len(rej)})
+        rejected += rej
+        distinct += res.distinct
+        if part != records_path:
+            os.remove(part)
+    run.cov["jobs"]["TV_Laws_%s%s%s" % (law, tag, "" if len(parts) == 1 else "_part0")].update({"records": nrec})
     run.cov["traces_validated_against_impl"] += nrec
-    if res.distinct != 2 * nrec:
-        raise ToolError("TV_Laws_%s examined %d states for %d records" % (law, res.distinct, nrec))
+    if distinct != 2 * nrec:
+        raise ToolError("TV_Laws_%s examined %d states for %d records" % (law, distinct, nrec))
     if rejected:
         metas = {}
         want = set(rejected)
@@ -252,9 +272,10 @@ def law_pipeline(run, law, modes, nwords, classify=None):
     for mode in modes:
         rules = gen_rules(run, mode)
         out = os.path.join(BUILD, "rec-%s-%s.ndjson" % (run.pid, mode))
-        summary, _ = run_harness(["record", law, rules, out, str(nwords)], env=run.known_env(), timeout=6000)
+        # the systematic strata of a law (position sweeps, tone joins, ...) do not depend on the generated rules: run them with the first mode only
+        summary, _ = run_harness(["record", law, rules, out, str(nwords)], env=dict(run.known_env(), VERIF_SWEEPS="1" if mode == modes[0] else "0"), timeout=6000)
         run.add_summary("record_%s_%s" % (law, mode), summary, traces=False)
-        tv_laws(run, law, out, summary, classify)
+        tv_laws(run, law, out, summary, classify, tag="" if len(modes) == 1 else "_" + mode)
         # binding selftest on the first mode: a corrupted record must be rejected
         for f in (rules, out, out + ".meta"):
             try: os.remove(f)
